@@ -606,3 +606,14 @@ func vBreakLineOrphansWidows() (int, []string) {
 //@   assert after box_.PositionY#1: pr.VV(box_.PositionY) + pr.VV(box_.MarginTop) == pr.VV(prev) + collapsedMargin + pr.VV(bl.Clearance)
 //@   call blockLevelLayoutSwitch#1 assert[clearance-separates-the-margins] !bo.TableT.IsInstance(box) && box.BlockLevel().Clearance != nil ==> len(*arg8) == 0
 //@   call blockLevelLayoutSwitch#1 assert[same-box] arg1 == box && arg4 == containingBlock
+
+// a line that is cut before an unbreakable unit resumes at the child that FOLLOWS the last child kept on the
+// line (the kept children need not be contiguous: an empty text box yields no box); a line cut inside a
+// waiting child resumes inside that child
+//@ func breakWaitingChildren
+//@   props C11
+//@   modifies anything
+//@   unclaimed call-*-pre* "box accessors on boxes under layout"
+//@   return 1 ensures[resume-inside-the-broken-child] haskey(result, childIndex) && len(result) == 1
+//@   return 2 ensures[resume-after-the-last-kept-child] haskey(result, (*children)[len(*children)-1].index + 1) && len(result) == 1
+//@   return 3 ensures result == nil
